@@ -2,9 +2,9 @@ SPECIFICATION Spec
 CONSTANTS
   Streams <- MCStreams
   Full = TRUE
-  RBufs = {0, 1, 64, 124, 125, 255, 256, 257, 1024}
+  RBufs = {0, 1, 64, 124, 125, 255, 256, 257, 1024, 4097, 8192}
   HSizes = {16, 255, 256, 257, 4096}
-  ClientRBufs = {0, 1, 125, 200, 255, 256, 1024, 4096}
+  ClientRBufs = {0, 1, 125, 200, 255, 256, 1024, 4096, 4097, 8192, 65536}
   RespLen = 129
   CtlStreams <- MCCtlStreams
   CtlRBufs = {0, 1, 16, 64, 124, 125, 126, 1024}
